@@ -28,7 +28,7 @@ ASSUMPTIONS = ["segmentation is simulated at the socket API (recv return "
                "identified by its exact bytes (re-packed on delivery)"]
 REQUIRED = ["reads", "delivered", "cuts_inside_header", "cuts_inside_body",
             "held_partial", "ctl_cases", "sw_cases", "over_2048",
-            "handshake_streams", "reads_inside_a_handler", "hello_with_body", "ctl_endpoints_with_the_nicira_unpacker",
+            "handshake_streams", "reads_inside_a_handler", "reads_of_another_connection_inside_a_handler", "hello_with_body", "ctl_endpoints_with_the_nicira_unpacker",
             "ctl_endpoints_with_the_connection_s_own_idle_handlers",
             "moments_with_several_partial_messages", "handlers_that_raised",
             "sw_first_read_while_connecting", "sw_over_8192",
@@ -404,15 +404,59 @@ def run_reentrant (case, rep):
         while sock.rx and not worker.closed: worker._do_recv(loop)
       finally:
         depth[0] -= 1
+  # a second connection of the same process whose segments arrive - and are
+  # read - while a handler of the first one is running (the peer answers the
+  # first connection's message by writing to the second at once): each
+  # connection's stream is its own
+  two = None
+  if case.get("two"):
+    msgs2 = make_stream("sw", str(case["seed"]) + "/b", False)
+    stream2 = b"".join(msgs2)
+    msgs2 = [delivered_form(m) for m in msgs2]
+    rng2 = random.Random("c02r2/%s" % case["seed"])
+    cuts2 = sorted(set(rng2.randrange(1, len(stream2)) for _ in range(rng2.randrange(1, 6))))
+    segs2 = []; prev = 0
+    for c in cuts2 + [len(stream2)]:
+      segs2.append(stream2[prev:c]); prev = c
+    sock2 = simnet.FakeSocket("c02r2")
+    worker2 = iow.RecocoIOWorker(sock2)
+    worker2.pinger = loop.pinger
+    worker2.on_close = lambda w: None
+    conn2 = sw.OFConnection(worker2)
+    got2 = []
+    conn2.set_message_handler(lambda c, msg: got2.append(msg.pack()))
+    two = (segs2, sock2, worker2, got2, msgs2)
+    inner = handler
+    def handler (c, msg):
+      if segs2:
+        rep.count("reads_of_another_connection_inside_a_handler")
+        sock2.feed(segs2.pop(0))
+        while sock2.rx and not worker2.closed: worker2._do_recv(loop)
+      if not case.get("two_only"): inner(c, msg)
+      else: got.append(msg.pack())
   conn.set_message_handler(handler)
   try:
     while segs:
       sock.feed(segs.pop(0))
       while sock.rx and not worker.closed: worker._do_recv(loop)
       rep.count("reads")
+    if two:
+      while two[0]:
+        two[1].feed(two[0].pop(0))
+        while two[1].rx and not two[2].closed: two[2]._do_recv(loop)
   except Exception:
     fire("raises", traceback.format_exc()[-600:])
     rep.case(("r|%s|%r" % (case["seed"], cuts)).encode(), nontrivial=True); return
+  if two:
+    if two[2].closed:
+      fire("the other connection dropped on well-formed input", "")
+    elif two[3] != two[4]:
+      fire("messages of a connection read while another connection's handler "
+           "runs are lost, repeated or reordered",
+           "%d delivered, %d sent, %d octets left in its buffer" %
+           (len(two[3]), len(two[4]), len(two[2].receive_buf)))
+    elif bytes(two[2].receive_buf):
+      fire("bytes left over on the other connection", "%d" % len(two[2].receive_buf))
   if worker.closed:
     fire("connection dropped on well-formed input", "")
   elif got != msgs:
@@ -701,6 +745,9 @@ def run (spec, rep):
            and not case.get("raise_at") and not case.get("connecting") \
            and case.get("big") != "tiny":
           run_reentrant(case, rep)
+          if n % 2:
+            c2 = dict(case); c2["two"] = True; c2["two_only"] = bool(n % 4 == 1)
+            run_reentrant(c2, rep)
     except Exception:
       rep.violation("C02 harness-visible exception",
                     traceback.format_exc()[-900:], case)
